@@ -12,7 +12,7 @@ CLAIMED = {
          "The history theorem's side condition excludes collection names that need JSON escapes; the root-record round trip for such names is C14.root_roundtrip, their behaviour in histories is covered by the correspondence runs (the name pool contains them)."),
  "C06": ("Lean proof: visit = foldUntil over filtered in-order list with depths; correspondence",
          "ascend_exact/descend_exact: for every search tree, target, visitor and state, the visit delivers exactly the filtered in-order items with true depths and stops after the first rejection. Compared against the package for both directions, value modes, targets and stop positions in all cache states.",
-         "Iterators are compared through the c18 stream; the C12n profile (no load-time comparator callback, SetCollection installs the comparator after every open) runs here too."),
+         "Iterators are compared through the c18 stream; the C12n profile (no load-time comparator callback, SetCollection installs the comparator after every open) runs here too; so does the `Chain` step (a treap made a path of 66-80 nodes by caller-chosen priorities)."),
  "C08": ("Lean proof: scanRoots_revert / revertStore_prev / revertStore_none; divergence of the pinned loop; correspondence",
          "FlushRevert lands on the greatest complete root record below the current end and truncates there, or empties the store; the scan is total by structural recursion (the pinned loop is proved to diverge: defect F2, fixed). Compared on histories with many flushes/reverts/re-opens; hangs are caught by a watchdog.",
          "FlushRevert after a FAILED Flush was defect F10 (repaired); the fault stream reverts directly after failed flushes. `c08s` sweeps the size of the flush being reverted over across every power of two from 512 to 8192."),
@@ -24,12 +24,12 @@ CLAIMED = {
          "In the main profile a name always maps to the same comparator; profile C12n opens stores WITHOUT the load-time comparator callback and installs each comparator with SetCollection on the existing name (the documented pattern), so 'only installs the new comparator' is exercised with a real change. Static: cas_compares_what_was_read (regenerated Gen/Cas.lean); supplementary: no_lost_collection_update on Model CasLoop (schedules are outside C12's quantifier). Use of a REPLACED handle is use-after-close (nil dereference) and is not covered."),
  "C13": ("Lean proof: BST/AggOK invariants, heap order under NoLowerOverwrite, canonical_unique; shape correspondence",
          "invariants hold after every history; heap order under the stated hypothesis (and a proved counterexample without it); with distinct priorities the in-order depth list is a function of the item set. The package's tree (depths via the Ex visitor, per-node aggregates via the verif walk) is compared with the model's shape.",
-         "Under tied priorities shapes are compared with the model (both follow the same tie rule). Depths are also compared for visits with arbitrary targets (C13 and C13any profiles)."),
+         "Under tied priorities shapes are compared with the model (both follow the same tie rule). Depths are also compared for visits with arbitrary targets (C13 and C13any profiles). Profile C12n (comparator installed by SetCollection after a callback-less open) and, in C13any, the `Chain` step (a path of 66-80 nodes) run here too."),
  "C16": ("Lean proof: len_eq, visitBlocks_perm, visitRandom_perm for every size; correspondence at sizes 0..70, 1023..1025, 2047..2049",
          "For every search tree and every permuting mangler/shuffle the block visitors deliver a permutation of the items; Len is exact. Compared (as sorted multisets) against the package for every n in 0..70 and around 1024/2048 (thorough: 3072, 5000, random sizes).",
          "Early stop inside a block is not part of the compared observable. Besides the size sweep, profile C16 measures (Len, both block enumerations) between mutations and under snapshots."),
  "C03": ("Lean proof: scan_crash_atomic / openStore_crash_atomic (greatest valid root end), append-only prefix; crash-image enumeration",
-         "For every image that keeps the bytes below the last durable end E and has no complete root record above E, opening lands exactly on the flush that ended at E; every Flush write (torn or not) keeps that prefix. The harness cuts the write log at every write boundary, every byte of root-record writes and sampled (thorough: all) bytes of other writes, with magic-marker values, altered copies of root records, VERBATIM copies of earlier root records and a tail-length boundary sweep (junk of every length around each power of two from 512 to 8192) as junk, re-opens each image with the real package and the model, and continues a sample of recovered stores.",
+         "For every image that keeps the bytes below the last durable end E and has no complete root record above E, opening lands exactly on the flush that ended at E; every Flush write (torn or not) keeps that prefix. The harness cuts the write log at every write boundary, every byte of root-record writes and sampled (thorough: all) bytes of other writes, with magic-marker values, altered copies of root records, VERBATIM copies of earlier root records, 16 trailer-position bytes (top bit set / clear / random) behind a doubled end marker, and a tail-length boundary sweep (junk of every length around each power of two from 512 to 8192) as junk, re-opens each image with the real package and the model, and continues a sample of recovered stores.",
          "The junk hypothesis (no complete self-consistent root record above E) is the property's own exclusion."),
  "C05": ("Lean proof on interleaving Model C (all schedules) + lock-discipline theorems on regenerated lock tables + deterministic-scheduler trace validation",
          "read_one_version, no_lost_update, flush_persists_current_versions, flush_name_order, no_deadlock for all programs and all schedules of the model; no mutex held across file I/O or callbacks and a fixed lock order (decide on tables regenerated from /repo). The real package is run under a seeded cooperative scheduler (yield hooks, file calls, visitor callbacks) and every read / every concurrent Flush image is validated against the version it pinned.",
@@ -42,13 +42,13 @@ CLAIMED = {
          "Soundness of the translator's call graph (closures, method values, interface dispatch, json reflection edges) is trusted."),
  "C11": ("Lean proof: copyTo_contents for every flushEvery, independence of flushEvery, destination-only writes; correspondence",
          "copy_equivalent holds for every source and every flushEvery; copy_holds_only_live_item_records for every flushEvery > 0; the package's CopyTo (writable stores, snapshots, evicted and re-opened sources, fe in {-1,0,1,2,3,5,100}) is compared on destination contents, destination image and re-opened destination, source contents and source write log.",
-         "'holds only live data (no superseded item versions)' is copy_holds_only_live_item_records: on the model, for fe > 0 and well-formed sources, the item records written are exactly (as a multiset) the destination's live (item, location) pairs, pairwise disjoint and inside the file; node records are superseded by periodic flushes and the theorem does not say otherwise. It reaches the code through the byte-exact comparison of destination images with the model's in the stream."),
+         "'holds only live data (no superseded item versions)' is copy_holds_only_live_item_records: on the model, for fe > 0 and well-formed sources, the item records written are exactly (as a multiset) the destination's live (item, location) pairs, pairwise disjoint and inside the file; node records are superseded by periodic flushes and the theorem does not say otherwise. It reaches the code through the byte-exact comparison of destination images with the model's in the stream. The generator's `Chain` step copies sources whose tree is a path of 66-80 nodes (caller-chosen priorities)."),
  "C14": ("Lean proof: codec round trips, root record, flush_then_open with the independent decoder; decide on regenerated constants; decoder run on the implementation's bytes",
          "Item/node/root round trips, decode_flushed_file, coherent (children-before-parent) layout; obligations on constants regenerated from /repo (version, magics, header offsets, record lengths, JSON tags, byte order). Every flushed image of the package is decoded by the Lean codec and compared with what the package reads back, and byte-compared with the model's image.",
          "root_roundtrip covers every collection name (Go's JSON escaping included); root_roundtrip_partial is the earlier escape-free statement. The profile also fills 70-260 items into one flush."),
  "C17": ("Lean proof: chunked value writes/reads equal single ones; correspondence under random subsets of callbacks",
          "In the model a neutral callback is the identity; the non-trivial part (chunked ItemValWrite/ItemValRead) is proved. The package runs the C01/C02/C06/C14 observables with random subsets (thorough: many more) of the eight callbacks installed and is compared with the callback-free model, file images included.",
-         "Chunk sizes 3 (write) and 5 (read) in the harness callbacks; profile C17c keeps values chunked IN MEMORY as tools/slab does (Item.Val = first chunk, rest in Transient; found defect F12); C19's read-log checks also run under every neutral callback subset (C19cb); a non-identity encode/decode hook pair (outside 'neutral') runs under C04 (C04t)."),
+         "Chunk sizes 3 (write) and 5 (read) in the harness callbacks; profile C17c keeps values chunked IN MEMORY as tools/slab does (Item.Val = first chunk, rest in Transient; found defect F12); C19's read-log checks also run under every neutral callback subset (C19cb); profile C17p installs a load-time comparator callback that knows only some names (the rest get theirs from SetCollection after every open) and reads through snapshots; a non-identity encode/decode hook pair (outside 'neutral') runs under C04 (C04t)."),
  "C18": ("Lean proof on the two-goroutine iterator model (all programs, all interleavings) + lock-discipline tables; iterator and nested-callback correspondence",
          "no_panic, no_deadlock, terminates, producer_exits_and_unpins, next_after_end_is_false, observable_deterministic for every item list, consumer program and interleaving; callbacks never run under a mutex (regenerated tables). Real iterators are driven with random Next/Close programs; outputs, goroutine count and version pin are checked; visitor callbacks issue nested reads and mutations.",
          "PARTIAL: real scheduler interleavings of the two goroutines are sampled, not enumerated. An iterator that is exhausted is NOT closed by the harness (the property says 'after Close() or exhaustion'); an iterator abandoned mid-way without Close is outside the property. Static: pins_released_on_every_path (regenerated Gen/Pins.lean). The real-goroutine stress stream c05s (abandoned iterators + AllocStats against dying versions) and a fault stream with iterators run here too."),
